@@ -3,7 +3,7 @@
     lemma proved elsewhere, with [Print Assumptions] beneath.  bin/pqv
     re-checks every statement with [Check (name : forall ..., statement)] and
     every [Print Assumptions] on each run. *)
-From PQV Require Import AbsPQProofs AbsCostProofs ListProofs IterProofs Final.
+From PQV Require Import AbsPQProofs AbsCostProofs ListProofs IterProofs UnwindProofs Final.
 From PQV Require Export PropSpec.
 
 (* C01 *)
@@ -295,3 +295,13 @@ Print Assumptions C10_leaked_iterators_safe.
 Theorem C10_drain_leak : forall (I P : Type) (keq : I -> I -> bool) (ple : P -> P -> bool), @C16_stmt I P keq ple.
 Proof. intros; apply F_C16. Qed.
 Print Assumptions C10_drain_leak.
+
+(* C10 *)
+Theorem C10_unwind_step : forall (I P : Type) (keq : I -> I -> bool) (hash : I -> N) (ple : P -> P -> bool) (peq : P -> P -> bool) (alloc_limit : N), step_unwind_safe_stmt keq hash ple peq alloc_limit.
+Proof. intros; apply @UnwindProofs.step_unwind_safe. Qed.
+Print Assumptions C10_unwind_step.
+
+(* C10 *)
+Theorem C10_unwind_run : forall (I P : Type) (keq : I -> I -> bool) (hash : I -> N) (ple : P -> P -> bool) (peq : P -> P -> bool) (alloc_limit : N), run_unwind_safe_stmt keq hash ple peq alloc_limit.
+Proof. intros; apply @UnwindProofs.run_unwind_safe. Qed.
+Print Assumptions C10_unwind_run.
